@@ -6,7 +6,9 @@ compared with the independent resolver R-inh (gen_inh.expected).
 """
 from __future__ import annotations
 
+import contextlib
 import re
+import signal
 
 from vf import core, gen_inh
 
@@ -35,6 +37,23 @@ QUIRK_SIGS = {
 }
 
 _TAG = re.compile(r"<([abc][0-9A])")
+
+
+
+@contextlib.contextmanager
+def cpu_alarm(seconds):
+    """hang guard on the worker's CPU time (ITIMER_PROF), so that a worker that is merely starved on a
+    shared machine is not mistaken for a hanging render (core.alarm counts wall time)."""
+    def on_alarm(signum, frame):
+        raise core.CaseTimeout()
+
+    old = signal.signal(signal.SIGPROF, on_alarm)
+    signal.setitimer(signal.ITIMER_PROF, seconds)
+    try:
+        yield
+    finally:
+        signal.setitimer(signal.ITIMER_PROF, 0)
+        signal.signal(signal.SIGPROF, old)
 
 
 def _script(case):
@@ -91,8 +110,11 @@ def shard(arg) -> core.Part:
     p = core.Part()
     for case in gen_inh.cases(bound, shard=(k, n)):
         p.evals += 1
-        with core.alarm(20):
-            got = gen_inh.render(case)
+        try:
+            with cpu_alarm(20):
+                got = gen_inh.render(case)
+        except core.CaseTimeout:
+            got = ("exc", "Hang(20 s CPU)")
         exp = gen_inh.expected(case)
         depth = len(case[1])
         p.count(f"cases_depth{depth}_blocks{len(case[0])}")
